@@ -14,6 +14,7 @@ package main
 //   (a) reader    : see c09_reader.go      (c) format : see c09_format.go
 
 import (
+	"encoding/json"
 	"fmt"
 	"os"
 	"path/filepath"
@@ -134,7 +135,7 @@ type c09Obs struct {
 // cases the same worker had run before it are replayed: when the fault shows again it is kept
 // with how=sequence and a minimised prefix; when not, it is recorded as unreproduced (evidence
 // only: a verdict must be repeatable).
-func (r *c09Run) explore(units [][]c09Case, progress func(i int, res []c09Result)) [][]c09Obs {
+func (r *c09Run) explore(units [][]c09Case, progress func(i int, res []c09Result), known func(u, k int, rs c09Result, kind string) bool) [][]c09Obs {
 	verbose := os.Getenv("C09_VERBOSE") != ""
 	t0 := time.Now()
 	res := r.eng.RunUnits(units, progress)
@@ -149,15 +150,25 @@ func (r *c09Run) explore(units [][]c09Case, progress func(i int, res []c09Result
 	obs := make([][]c09Obs, len(units))
 	type ref struct{ u, k int }
 	var faults []ref
+	accepted := 0
 	for u := range res {
 		obs[u] = make([]c09Obs, len(res[u]))
 		for k, rs := range res[u] {
 			obs[u][k].Res = rs
-			if c09FaultKind(rs) != "" {
+			if kind := c09FaultKind(rs); kind != "" {
+				// quick tier: a first-pass fault whose signature is a listed finding is taken as that
+				// finding without confirmation (confirmation exists to keep load and interpreter
+				// state from producing a verdict; a listed signature produces none)
+				if known != nil && !r.c.Thorough() && rs.Status != "S" && known(u, k, rs, kind) {
+					obs[u][k].Kind, obs[u][k].How = kind, "isolated"
+					accepted++
+					continue
+				}
 				faults = append(faults, ref{u, k})
 			}
 		}
 	}
+	r.c.Ev.Count("faults_listed_unconfirmed", accepted)
 	// (1) alone
 	iso := make([][]c09Case, len(faults))
 	for i, f := range faults {
@@ -325,6 +336,9 @@ type c09Run struct {
 	// faults seen once that neither reproduce alone, nor after their predecessor, nor in their
 	// session: listed in the evidence, never a verdict
 	unrepro []string
+	// first case text and observation per reported signature (findings candidate file)
+	firstCase map[string][2]string
+	sigOrder  []string
 }
 
 func runC09(c *lib.Ctx) {
@@ -348,12 +362,16 @@ func runC09(c *lib.Ctx) {
 	if only == "" || strings.Contains(only, "builtin") {
 		r.sweepBuiltins()
 	}
+	if only == "" || strings.Contains(only, "tuples") {
+		r.sweepTuples()
+	}
 	if only == "" || strings.Contains(only, "reader") {
 		r.sweepReader()
 	}
 	if only == "" || strings.Contains(only, "format") {
 		r.sweepFormat()
 	}
+	r.writeCandidates()
 	c.Ev.Coverage["unreproduced_faults"] = r.unrepro
 	c.Ev.Coverage["worker_starts"] = r.eng.starts.Load()
 	c.Ev.Coverage["worker_kills"] = r.eng.kills.Load()
@@ -390,9 +408,11 @@ func (r *c09Run) sweepBuiltins() {
 	done := 0
 	res := r.explore(units, func(i int, _ []c09Result) {
 		done++
-		if os.Getenv("C09_VERBOSE") != "" {
+		if os.Getenv("C09_VERBOSE") == "2" {
 			fmt.Fprintf(os.Stderr, "unit %d/%d %s %.1fs\n", done, len(units), r.fns[i].Key(), time.Since(t0).Seconds())
 		}
+	}, func(u, k int, rs c09Result, kind string) bool {
+		return c.Findings.Match("C09", cells[u][k].Sig(kind, rs.Stage)) != nil
 	})
 	c.Ev.Coverage["pair_sweep_wall_s"] = time.Since(t0).Seconds()
 	total, faults := 0, 0
@@ -405,8 +425,7 @@ func (r *c09Run) sweepBuiltins() {
 			rs := ob.Res
 			total++
 			unitUs += rs.Micros
-			arity := rs.Status == "C" && rs.Class == "program-error"
-			c.Ev.Case(units[ui][k].Text, !arity)
+			c.Ev.Case(units[ui][k].Text, !c09IsArity(rs))
 			c.Ev.Hist("outcome", c09OutcomeBucket(rs))
 			if rs.Micros > 100000 {
 				slowCases = append(slowCases, fmt.Sprintf("%8.3fs\t%s\t%s", float64(rs.Micros)/1e6, units[ui][k].Text, c09OutcomeBucket(rs)))
@@ -423,12 +442,7 @@ func (r *c09Run) sweepBuiltins() {
 				sig += " how=sequence"
 			}
 			dump = append(dump, sig+"\t"+units[ui][k].Text+"\t"+rs.Summary())
-			c.Report(sig, true, map[string]any{
-				"input":         map[string]any{"kind": "E", "text": units[ui][k].Text, "how": ob.How, "with": ob.Prefix},
-				"observed":      rs.Summary(),
-				"expected":      c09Expected,
-				"expected_from": "property statement (exploration; no model in the loop)",
-			})
+			r.report(sig, true, units[ui][k].Text, "E", ob, "objects "+c09Names(cl.idx...))
 		}
 		slow[r.fns[ui].Key()] = unitUs
 	}
@@ -456,6 +470,150 @@ func (r *c09Run) sweepBuiltins() {
 	_ = os.WriteFile(filepath.Join(c.OutDir, "faults.tsv"), []byte(strings.Join(dump, "\n")+"\n"), 0o644)
 }
 
+// sweepTuples: 3+-tuples. A fixed table (every function that documents room for three arguments
+// x all triples over the reduced pool; thorough: third argument over the whole pool) and seeded
+// 3..5-tuples over the whole pool. Signature: function + fault kind (argc=3+); the table is
+// seed independent, so its failing (function, kind) pairs are the listed ones, and a seeded tuple
+// may only hit a listed pair.
+func (r *c09Run) sweepTuples() {
+	c := r.c
+	var units [][]c09Case
+	var cells [][]c09Cell
+	var table [][]bool
+	nTable, nSeeded := 0, 0
+	third := c09Reduced
+	if c.Thorough() {
+		third = nil
+		for i := range c09Pool {
+			third = append(third, i)
+		}
+	}
+	perFn := c.Scale(40000, 500000) / len(r.fns)
+	for _, f := range r.fns {
+		var u []c09Case
+		var cl []c09Cell
+		var tb []bool
+		if f.Max < 0 || f.Max >= 3 {
+			for _, i := range c09Reduced {
+				for _, j := range c09Reduced {
+					for _, k := range third {
+						u = append(u, c09Case{"E", f.Call(i, j, k)})
+						cl = append(cl, c09Cell{f, []int{i, j, k}})
+						tb = append(tb, true)
+						nTable++
+					}
+				}
+			}
+		}
+		for n := 0; n < perFn; n++ {
+			k := 3 + c.Rng.Intn(3)
+			if f.Max >= 0 && f.Max < 3 {
+				k = 3 // beyond the documented maximum only the arity check is exercised
+				if n > 3 {
+					break
+				}
+			} else if f.Max >= 3 && k > f.Max+1 {
+				k = f.Max + 1
+			}
+			idx := make([]int, k)
+			for i := range idx {
+				idx[i] = c.Rng.Intn(len(c09Pool))
+			}
+			u = append(u, c09Case{"E", f.Call(idx...)})
+			cl = append(cl, c09Cell{f, idx})
+			tb = append(tb, false)
+			nSeeded++
+		}
+		units = append(units, u)
+		cells = append(cells, cl)
+		table = append(table, tb)
+	}
+	t0 := time.Now()
+	obs := r.explore(units, nil, func(u, k int, _ c09Result, kind string) bool {
+		return c.Findings.Match("C09", fmt.Sprintf("fn=%s argc=3+ kind=%s", cells[u][k].fn.Key(), kind)) != nil
+	})
+	c.Ev.Coverage["tuple_wall_s"] = time.Since(t0).Seconds()
+	c.Ev.Coverage["tuple_table_cases"] = nTable
+	c.Ev.Coverage["tuple_seeded_cases"] = nSeeded
+	var dump []string
+	for u := range obs {
+		for k, ob := range obs[u] {
+			cl := cells[u][k]
+			c.Ev.Case(units[u][k].Text, !c09IsArity(ob.Res))
+			c.Ev.Hist("tuple_outcome", c09OutcomeBucket(ob.Res))
+			c.Ev.Hist("tuple_argc", fmt.Sprint(len(cl.idx)))
+			if ob.Kind == "" {
+				continue
+			}
+			sig := fmt.Sprintf("fn=%s argc=3+ kind=%s", cl.fn.Key(), ob.Kind)
+			if ob.How != "isolated" {
+				sig += " how=" + ob.How
+			}
+			dump = append(dump, fmt.Sprintf("%s\t%v\t%s\t%s", sig, table[u][k], units[u][k].Text, ob.Res.Summary()))
+			r.report(sig, true, units[u][k].Text, "E", ob, "args="+c09Types(cl.idx...))
+		}
+	}
+	sort.Strings(dump)
+	_ = os.WriteFile(filepath.Join(c.OutDir, "tuple-faults.tsv"), []byte(strings.Join(dump, "\n")+"\n"), 0o644)
+}
+
+// c09IsArity: the outcome is an argument count error (statistics only).
+func c09IsArity(r c09Result) bool {
+	return r.Status == "C" && (strings.HasPrefix(r.Text, "Too few arguments") || strings.HasPrefix(r.Text, "Too many arguments"))
+}
+
+// report records a fault: listed signatures of sweep cells are known findings, everything else
+// is a violation. The first case seen per signature is kept for the findings candidate file.
+func (r *c09Run) report(sig string, sweep bool, text, kind string, ob c09Obs, note string) {
+	if _, seen := r.firstCase[sig]; !seen {
+		if r.firstCase == nil {
+			r.firstCase = map[string][2]string{}
+		}
+		r.firstCase[sig] = [2]string{text, ob.Res.Summary()}
+		r.sigOrder = append(r.sigOrder, sig)
+	}
+	in := map[string]any{"kind": kind, "text": text, "how": ob.How, "with": ob.Prefix}
+	if kind == "R" {
+		in["text_hex"] = lib.Hex(text)
+	}
+	r.c.Report(sig, sweep, map[string]any{
+		"input":         in,
+		"note":          note,
+		"observed":      ob.Res.Summary(),
+		"expected":      c09Expected,
+		"expected_from": "property statement (exploration: the implementation is observed directly, no model in the loop)",
+	})
+}
+
+// writeCandidates writes every signature reported in this run in the format of findings/C09.json
+// into the run directory (never into the committed findings file).
+func (r *c09Run) writeCandidates() {
+	type fnd struct {
+		Property  string `json:"property"`
+		Signature string `json:"signature"`
+		WhatFails string `json:"what_fails"`
+		Replay    string `json:"replay"`
+		FirstSeen string `json:"first_seen"`
+	}
+	sigs := append([]string{}, r.sigOrder...)
+	sort.Strings(sigs)
+	out := struct {
+		Findings []fnd    `json:"findings"`
+		Fixed    []string `json:"fixed"`
+	}{Findings: []fnd{}, Fixed: r.c.Findings.Fixed}
+	for _, sig := range sigs {
+		fc := r.firstCase[sig]
+		obs := fc[1]
+		// addresses and sizes in messages differ between runs: keep the head of the observation only
+		if i := strings.Index(obs, " | "); i > 0 {
+			obs = obs[:i]
+		}
+		out.Findings = append(out.Findings, fnd{"C09", sig, c09Clip(obs, 160), c09Clip(fc[0], 300), "round 1"})
+	}
+	b, _ := json.MarshalIndent(out, "", " ")
+	_ = os.WriteFile(filepath.Join(r.c.OutDir, "findings-candidate.json"), b, 0o644)
+}
+
 // chunk splits cases into units of at most n.
 func c09Chunk(cases []c09Case, n int) [][]c09Case {
 	var units [][]c09Case
@@ -474,7 +632,14 @@ func c09Chunk(cases []c09Case, n int) [][]c09Case {
 func (r *c09Run) sweepReader() {
 	c := r.c
 	table := c09ReaderTable(c.Thorough())
-	seeded := c09ReaderSeeded(c.Rng, c.Scale(40000, 600000))
+	// the seeded generator drops inputs containing a construct that is listed in the findings
+	var avoid []c09Construct
+	for _, cs := range c09ReaderConstructs {
+		if c.Findings.Listed("C09", "reader construct="+cs.name+" ") {
+			avoid = append(avoid, cs)
+		}
+	}
+	seeded := c09ReaderSeeded(c.Rng, c.Scale(40000, 600000), avoid)
 	var cases []c09Case
 	for _, t := range table {
 		cases = append(cases, c09Case{"R", t})
@@ -485,7 +650,9 @@ func (r *c09Run) sweepReader() {
 	}
 	units := c09Chunk(cases, 2000)
 	t0 := time.Now()
-	obs := r.explore(units, nil)
+	obs := r.explore(units, nil, func(u, k int, rs c09Result, kind string) bool {
+		return u*2000+k < nTable && c.Findings.Match("C09", c09ReaderSig(units[u][k].Text, kind, rs.Stage)) != nil
+	})
 	c.Ev.Coverage["reader_wall_s"] = time.Since(t0).Seconds()
 	c.Ev.Coverage["reader_table_cases"] = nTable
 	c.Ev.Coverage["reader_seeded_cases"] = len(seeded)
@@ -509,17 +676,54 @@ func (r *c09Run) sweepReader() {
 				sig += " how=" + ob.How
 			}
 			dump = append(dump, fmt.Sprintf("%s\t%v\t%q\t%s", sig, sweep, in, ob.Res.Summary()))
-			c.Report(sig, sweep, map[string]any{
-				"input":         map[string]any{"kind": "R", "text": in, "text_hex": lib.Hex(in), "how": ob.How, "with": ob.Prefix},
-				"observed":      ob.Res.Summary(),
-				"expected":      c09Expected,
-				"expected_from": "property statement; Theorems.C09 reader_step_total says the table-driven step itself cannot fault",
-			})
+			r.report(sig, sweep, in, "R", ob, "reader input")
 		}
 	}
 	sort.Strings(dump)
 	_ = os.WriteFile(filepath.Join(c.OutDir, "reader-faults.tsv"), []byte(strings.Join(dump, "\n")+"\n"), 0o644)
-	c.Ev.Count("traces_validated_against_impl", 0)
+	// correspondence with the model over the regenerated tables: where the model says that every
+	// possible reader state has no action for a byte (must-raise), the implementation must not
+	// return a value
+	if c.ModelBin != "" {
+		var reqs []string
+		var refs [][2]int
+		for u := range obs {
+			for k := range obs[u] {
+				if in := units[u][k].Text; len(in) <= 4096 {
+					reqs = append(reqs, "tot reader "+lib.Hex(in))
+					refs = append(refs, [2]int{u, k})
+				}
+			}
+		}
+		replies := c.Model(reqs)
+		must, agree := 0, 0
+		for i, rep := range replies {
+			u, k := refs[i][0], refs[i][1]
+			in := units[u][k].Text
+			switch {
+			case strings.HasPrefix(rep, "err"):
+				// excluded by Theorems.GenC09.reader_run_total_now while the obligation builds
+				c.Report("reader-model aspect=model-fault", false, map[string]any{
+					"input": map[string]any{"kind": "R", "text": in, "text_hex": lib.Hex(in)}, "observed": "model: " + rep,
+					"expected": "ok must-raise | ok may-pass", "expected_from": "model:tot.reader", "relies_on": []string{"SlipVerif.Theorems.GenC09.reader_run_total_now"}})
+			case strings.HasPrefix(rep, "ok must-raise"):
+				must++
+				if obs[u][k].Res.Status == "V" {
+					c.Report("reader-model aspect=value-where-tables-have-no-action", false, map[string]any{
+						"input": map[string]any{"kind": "R", "text": in, "text_hex": lib.Hex(in)}, "observed": obs[u][k].Res.Summary(),
+						"expected": "a condition: " + rep + " (no action in the byte tables for any reachable mode)", "expected_from": "model:tot.reader",
+						"relies_on": []string{"SlipVerif.Theorems.C09.reader_run_total"}})
+				} else {
+					agree++
+				}
+			default:
+				agree++
+			}
+		}
+		c.Ev.Coverage["reader_model_requests"] = len(reqs)
+		c.Ev.Coverage["reader_model_must_raise"] = must
+		c.Ev.Coverage["reader_model_agree"] = agree
+	}
 }
 
 // sweepFormat: (c) format control strings x argument lists.
@@ -534,12 +738,44 @@ func (r *c09Run) sweepFormat() {
 	for i, fc := range all {
 		cases[i] = c09Case{"E", c09FmtCall(fc.ctl, fc.args)}
 	}
-	units := c09Chunk(cases, 3000)
+	// units of 3000 cases; the huge-count probes (they run until the memory cap) one per unit
+	var units [][]c09Case
+	var unitOf []c09FmtCase // flattened in unit order
+	var cur []c09Case
+	var curF []c09FmtCase
+	flush := func() {
+		if len(cur) > 0 {
+			units = append(units, cur)
+			unitOf = append(unitOf, curF...)
+			cur, curF = nil, nil
+		}
+	}
+	for i, fc := range all {
+		if strings.HasPrefix(fc.segs[0], "huge ") {
+			flush()
+			cur, curF = []c09Case{cases[i]}, []c09FmtCase{fc}
+			flush()
+			continue
+		}
+		cur, curF = append(cur, cases[i]), append(curF, fc)
+		if len(cur) == 3000 {
+			flush()
+		}
+	}
+	flush()
+	all = unitOf
+	offset := make([]int, len(units))
+	for u := 1; u < len(units); u++ {
+		offset[u] = offset[u-1] + len(units[u-1])
+	}
 	t0 := time.Now()
 	// format output is small unless a count is huge: a low memory cap ends those cases quickly
 	cap0 := r.eng.RSSCap
 	r.eng.RSSCap = 512 << 20
-	obs := r.explore(units, nil)
+	obs := r.explore(units, nil, func(u, k int, _ c09Result, kind string) bool {
+		fc := all[offset[u]+k]
+		return fc.table && c.Findings.Match("C09", fc.sig(kind)) != nil
+	})
 	r.eng.RSSCap = cap0
 	c.Ev.Coverage["format_wall_s"] = time.Since(t0).Seconds()
 	c.Ev.Coverage["format_table_cases"] = len(table)
@@ -563,16 +799,116 @@ func (r *c09Run) sweepFormat() {
 				sig += " how=" + ob.How
 			}
 			dump = append(dump, fmt.Sprintf("%s\t%v\t%s\t%s", sig, fc.table, units[u][k].Text, ob.Res.Summary()))
-			c.Report(sig, fc.table, map[string]any{
-				"input":         map[string]any{"kind": "E", "text": units[u][k].Text, "how": ob.How, "with": ob.Prefix},
-				"observed":      ob.Res.Summary(),
-				"expected":      c09Expected,
-				"expected_from": "property statement; Theorems.C09 format_scan_total says the directive scanner itself terminates and raises on unknown directives",
-			})
+			r.report(sig, fc.table, units[u][k].Text, "E", ob, "format")
 		}
 	}
 	sort.Strings(dump)
 	_ = os.WriteFile(filepath.Join(c.OutDir, "format-faults.tsv"), []byte(strings.Join(dump, "\n")+"\n"), 0o644)
+	if c.ModelBin != "" {
+		// the directive scanner model: an unknown byte after the first ~ (past modifiers and
+		// parameters) must make format raise
+		var reqs []string
+		var refs [][2]int
+		i := -1
+		for u := range obs {
+			for k := range obs[u] {
+				i++
+				reqs = append(reqs, "tot format "+lib.Hex(all[i].ctl))
+				refs = append(refs, [2]int{u, k})
+			}
+		}
+		replies := c.Model(reqs)
+		raise, agree := 0, 0
+		for j, rep := range replies {
+			u, k := refs[j][0], refs[j][1]
+			switch {
+			case strings.HasPrefix(rep, "err"):
+				c.Report("format-model aspect=model-fault", false, map[string]any{
+					"input": map[string]any{"kind": "E", "text": units[u][k].Text}, "observed": "model: " + rep,
+					"expected": "ok …", "expected_from": "model:tot.format", "relies_on": []string{"SlipVerif.Theorems.GenC09.format_scan_total_now"}})
+			case rep == "ok raise":
+				raise++
+				if obs[u][k].Res.Status == "V" {
+					c.Report("format-model aspect=value-for-unknown-directive", false, map[string]any{
+						"input": map[string]any{"kind": "E", "text": units[u][k].Text}, "observed": obs[u][k].Res.Summary(),
+						"expected": "a condition: the byte after ~ (and its modifiers / parameters) has no clause in readDir", "expected_from": "model:tot.format",
+						"relies_on": []string{"SlipVerif.Theorems.C09.format_unknown_raises"}})
+				} else {
+					agree++
+				}
+			default:
+				agree++
+			}
+		}
+		c.Ev.Coverage["format_model_requests"] = len(reqs)
+		c.Ev.Coverage["format_model_raise"] = raise
+		c.Ev.Coverage["format_model_agree"] = agree
+		r.groupCorrespondence()
+	}
+}
+
+// groupCorrespondence: the digit grouping of ~:D — the model's slices (Theorems.C09
+// group_slices_in_range / group_slices_cover) against the implementation's output.
+func (r *c09Run) groupCorrespondence() {
+	c := r.c
+	n := c.Scale(3000, 40000)
+	var cases []c09Case
+	var reqs []string
+	// comma characters that readParam accepts after the quote (bytes that dirScanMap marks end the
+	// parameter: `',` is a parse error, a C15 matter)
+	commas := []string{".", "_", "-", " "}
+	for i := 0; i < n; i++ {
+		digits := 1 + c.Rng.Intn(40)
+		if i < 200 {
+			digits = 1 + i%25
+		}
+		var b strings.Builder
+		sign := ""
+		if c.Rng.Chance(40) {
+			sign = "-"
+		}
+		b.WriteString(sign)
+		b.WriteByte(byte('1' + c.Rng.Intn(9)))
+		for d := 1; d < digits; d++ {
+			b.WriteByte(byte('0' + c.Rng.Intn(10)))
+		}
+		num := b.String()
+		ci := 1 + c.Rng.Intn(7)
+		if i < 200 {
+			ci = 1 + (i/25)%7
+		}
+		comma := commas[c.Rng.Intn(len(commas))]
+		at := ""
+		shown := num
+		if sign == "" && c.Rng.Chance(30) {
+			at, shown = "@", "+"+num
+		}
+		ctl := fmt.Sprintf("~,,'%s,%d:%sD", comma, ci, at)
+		cases = append(cases, c09Case{"E", "(format nil " + c09LispString(ctl) + " " + num + ")"})
+		reqs = append(reqs, fmt.Sprintf("tot group %s %d %s", shown, ci, lib.Hex(comma)))
+	}
+	res := r.eng.RunUnits(c09Chunk(cases, 1000), nil)
+	replies := c.Model(reqs)
+	i, agree := 0, 0
+	for _, ur := range res {
+		for _, rs := range ur {
+			want := ""
+			if f := strings.Fields(replies[i]); len(f) == 2 && f[0] == "ok" {
+				want = "\"" + lib.Unhex(f[1]) + "\""
+			}
+			if rs.Status == "V" && rs.Text == want {
+				agree++
+			} else {
+				c.Report("group-model aspect=grouped-digits", false, map[string]any{
+					"input": map[string]any{"kind": "E", "text": cases[i].Text}, "observed": rs.Summary(), "expected": want,
+					"expected_from": "model:tot.group", "relies_on": []string{"SlipVerif.Theorems.C09.group_slices_in_range", "SlipVerif.Theorems.C09.group_slices_cover"}})
+			}
+			c.Ev.Case(cases[i].Text, true)
+			i++
+		}
+	}
+	c.Ev.Coverage["group_model_cases"] = len(cases)
+	c.Ev.Coverage["group_model_agree"] = agree
 }
 
 func c09OutcomeBucket(r c09Result) string {
